@@ -42,6 +42,41 @@ CLAIMED = {
     'C16': ('Theorems C16_hooks_see_the_machines_context_and_the_callers_payload / C16_transition_carries_the_context / '
             'C16_context_conserved_by_every_operation (Rocq); K2 uses drop-counting context and payload values with identities.',
             'proof over the model + drop accounting on compiled machines'),
+    'C02': ('Theorems C02_method_exists_iff_transition_applies / C02_methods_are_the_edges_of_the_event / C02_new_only_on_initial_state / '
+            'C02_infallible_accessors_on_own_state_only (Rocq) about the inherent methods each generated state impl carries. PARTIAL: '
+            '"can be called" is rustc method resolution -- decided by K3: per machine one positive or negative probe per (leaf, event), '
+            'per state a `new` probe, per (state, data state) an accessor probe; rustc\'s error lines must equal the model\'s. K1 compares '
+            'the generated signatures with the model for every corpus definition.',
+            'proof over the model + rustc probe matrix (positive and negative)'),
+    'C12': ('Theorems C12_guard_errors_carry_declared_names / C12_invalid_transition_names_current_state / '
+            'C12_event_variants_and_methods_named_as_declared / C12_core_functions_and_macros_preserve_names (Rocq, all names, three kinds); '
+            'K2 compares error fields on refusals; K4 calls every core constructor, from_guard_error, abort_guard! (both arms) and abort_with! '
+            'on kinds x a name pool.',
+            'proof over the model + exhaustive core-algebra table'),
+    'C13': ('Theorems C13_accepted_definitions_are_well_formed (every rule of the list, by contraposition) / '
+            'C13_coherent_expansion_is_unambiguous / C13_accepted_means_what_it_says (Rocq); K1 runs the real front end on every rule class x '
+            'position mutant of the corpus (model verdict = macro verdict); K3 compiles the rejected definitions and the ambiguous ones: each '
+            'must produce a compiler diagnostic.',
+            'proof over the model + mutant corpus through the real macro and rustc'),
+    'C14': ('Theorems C14_front_end_accepts_exactly_the_well_formed_definitions (iff) / C14_dynamic_api_iff_requested / '
+            'C14_generated_item_names_follow_the_convention (Rocq). PARTIAL: type/borrow/trait checking of emitted bodies is rustc\'s -- decided '
+            'by K3: the compile corpus over the option product in both dynamic configurations, drivers using only documented item names; K1 '
+            'compares all generated items with the model.',
+            'proof over the model (front end: exact characterisation) + compile corpus'),
+    'C15': ('Theorems C15_async_equals_sync / C15_hooks_awaited_one_at_a_time / C15_await_on_every_call / '
+            'C15_dropped_future_is_abandoned_or_identical (Rocq, every suspension count / budget); K2 runs async machines under a poll-loop '
+            'executor with 0..3 suspensions per hook and compares with sync twins. PARTIAL for the Send clause: decided by K3 Send probes on every '
+            'typed method future and handle(), with a non-Send-context control.',
+            'proof over the model + async/sync twin runs + Send probes'),
+    'C17': ('Theorems C17_markers_are_exactly_leaves_and_superstates / C17_machine_without_data_is_its_context (Rocq, field-level). PARTIAL: '
+            'no_std acceptance, zero-sized markers, MachineState bounds and size_of are rustc facts -- decided by K3: every corpus machine built '
+            'in a #![no_std] crate without alloc, with const size assertions and bound probes.',
+            'proof over the model (emitted items) + no_std build with const assertions'),
+    'C18': ('Theorems C18_success_does_not_depend_on_hook_names / C18_hygienic_characterisation / C18_refuted_by_generic_parameter_capture '
+            '(Rocq). PARTIAL: which shadowings rustc rejects, and twin behaviour of renamed definitions, are decided by K3: every role x an '
+            'adversarial identifier pool is compiled; every variant that compiles is run against the model of the renamed definition. The '
+            'generic-parameter capture is a recorded known finding.',
+            'proof over the model (hygiene, refutation witness) + adversarial renaming through rustc'),
     'C19': ('Theorems C19_outcomes_of_handle / C19_poisoned_wrapper_is_unavailable / C19_completed_dispatch_stays_in_a_declared_state '
             '(Rocq, all budgets); K2 panics every hook and drops the async future at every suspension point, then tries every public op.',
             'proof over the model + fault enumeration on compiled machines'),
@@ -74,8 +109,7 @@ def main():
             'level_note': LEVEL_NOTE,
             'technique': 'machine-checked proof in Rocq (Coq 8.16) about a model of the macro; ' + tech,
         })
-    na = [{'property_id': p, 'reason': 'check under construction in this session (theorem and tie exist in DESIGN.md; not yet registered)'}
-          for p in ALL if p not in CLAIMED]
+    na = [{'property_id': p, 'reason': 'not claimed'} for p in ALL if p not in CLAIMED]
     man = {
         'version': 1,
         'setup_cmd': './check --setup',
